@@ -563,6 +563,9 @@ func (h *History) iterOp(t *rapid.T, ti int) {
 	op.Stop = drawInt(t, -1, n, "stop")
 	op.Re = drawInt(t, 1, 3, "re")
 	op.Btw = drawInt(t, 0, 1, "btw")
+	if drawInt(t, 0, 2, "nest") == 0 {
+		op.In = pick(t, []int{-1, -1, 1, 2, 3}, "in")
+	}
 	h.emit(t, op)
 }
 
